@@ -137,7 +137,7 @@ Definition cframe (f : st) : bool :=
   match f with
   | NoAnnot g => hostA g
   | FoundObjectKeyBeginAfterNewLine | InlineAnnotationTextPrefix | MultiLineAnnotationTextPrefix
-  | EndTopAfterNewLine => true
+  | EndTopAfterNewLine | InlineAnnotationTextSkip => true
   | _ => hostA f
   end.
 
@@ -213,15 +213,21 @@ Fixpoint aframes (v : list ev) (r : list st) : bool :=
     else aframes v' r
   end.
 Definition is_in_string (f : st) : bool := match f with InString => true | _ => false end.
-Definition rts_ok (f : st) (rts : list st) (v : list ev) : bool :=
+Definition rts_base (f : st) (rts : list st) (v : list ev) : bool :=
   match f with
-  | AnyCommentStart | InlineComment | MultiLineComment | MultiLineCommentStart =>
-    match rts with g :: r => (cframe g && shape g v && aframes v r)%bool | [] => false end
   | InStringEscU | InStringEscU1 | InStringEscU12 | InStringEscU123 =>
     match rts with g :: r => (is_in_string g && aframes v r)%bool | [] => false end
   | AnyAnnotationStart | InlineAnnotationStart | InlineAnnotationTextSkip =>
     match rts with g :: r => (hostA g && shape g v && aframes v r)%bool | [] => false end
   | _ => aframes v rts
+  end.
+(* a comment returns to the step it interrupted; that step may itself be waiting for its own
+   returnToStep entry (InlineAnnotationTextSkip, fix 0196ace) *)
+Definition rts_ok (f : st) (rts : list st) (v : list ev) : bool :=
+  match f with
+  | AnyCommentStart | InlineComment | MultiLineComment | MultiLineCommentStart =>
+    match rts with g :: r => (cframe g && shape g v && rts_base g r v)%bool | [] => false end
+  | _ => rts_base f rts v
   end.
 
 (* [Good0]: the invariant for a scanner whose queue of finds is still to be applied: it speaks
@@ -453,7 +459,7 @@ Qed.
 
 Lemma hostA_rts_ok g r v : hostA g = true -> rts_ok g r v = aframes v r.
 Proof. destruct g; cbn; intros H; try discriminate H; reflexivity. Qed.
-Lemma cframe_rts_ok g r v : cframe g = true -> rts_ok g r v = aframes v r.
+Lemma cframe_rts_ok g r v : cframe g = true -> rts_ok g r v = rts_base g r v.
 Proof. destruct g; cbn; intros H; try discriminate H; reflexivity. Qed.
 
 Lemma wf_cons2 a b v : wf (a :: b :: v) = (adj a b && wf (b :: v))%bool.
@@ -601,9 +607,9 @@ Proof.
   intros HG Hcl Hst. host_start s HG Hst; unfst; unf; rewrite ?Hc47; exec; fin.
 Qed.
 
-Lemma found_object_key_begin_ok c s :
+Lemma found_object_key_begin_ok c pb s :
   Good s -> closing_only (s_finds s) = true -> stepis FoundObjectKeyBegin c s ->
-  okres (st_found_object_key_begin c s).
+  okres (st_found_object_key_begin c pb s).
 Proof.
   intros HG Hcl Hst. host_start s HG Hst; unfst; unf; rewrite ?Hc47; exec; fin.
 Qed.
@@ -737,7 +743,7 @@ Ltac unflit :=
     st_types_shortcut_begin_of_schema_name, st_types_shortcut_after_pipe,
     st_in_annotation_object_key_first_letter.
 
-Lemma lit_ok c la k s :
+Lemma lit_ok c la pb k s :
   Good s -> s_finds s = [] ->
   match s_step s with
   | InString | InStringEsc | InStringEscU | InStringEscU1 | InStringEscU12 | Neg | Dot
@@ -745,7 +751,7 @@ Lemma lit_ok c la k s :
   | TypesShortcutBeginOfSchemaName | TypesShortcutAfterPipe | InAnnotationObjectKeyFirstLetter => True
   | _ => False
   end ->
-  okres (dispatch c la k (s_step s) s).
+  okres (dispatch c la pb k (s_step s) s).
 Proof.
   intros HG Hf Hst. dsc s. cbn in Hst, Hf. subst finds.
   destruct step; try (exfalso; exact Hst); clear Hst;
@@ -756,13 +762,13 @@ Ltac fin3 HK :=
   first [ fin2
         | eapply end_value_ok; [exact HK|cbn; side ..] ].
 
-Lemma evl_ok c la k s :
+Lemma evl_ok c la pb k s :
   Kspec c k -> Good s -> s_finds s = [] ->
   match s_step s with
   | EndValue | S0 | S1 | Dot0 | KeyShortcut | InAnnotationObjectKey | InAnnotationObjectKeyAfter => True
   | _ => False
   end ->
-  okres (dispatch c la k (s_step s) s).
+  okres (dispatch c la pb k (s_step s) s).
 Proof.
   intros HK HG Hf Hst. dsc s. cbn in Hst, Hf. subst finds.
   destruct step; try (exfalso; exact Hst); clear Hst;
@@ -774,13 +780,13 @@ Proof.
        st_in_annotation_object_key_after; unf; exec; fin3 HK).
 Qed.
 
-Lemma ts_ok c la k s :
+Lemma ts_ok c la pb k s :
   Kspec c k -> Good s -> s_finds s = [] ->
   match s_step s with
   | TypesShortcutSchemaName | TypesShortcutBeforePipe => True
   | _ => False
   end ->
-  okres (dispatch c la k (s_step s) s).
+  okres (dispatch c la pb k (s_step s) s).
 Proof.
   intros HK HG Hf Hst. dsc s. cbn in Hst, Hf. subst finds.
   destruct step; try (exfalso; exact Hst); clear Hst;
@@ -813,13 +819,13 @@ Proof.
   rewrite H1, H2, H3, H4, H. destruct (s_ann s); reflexivity.
 Qed.
 
-Lemma ann_start_ok c la k s :
+Lemma ann_start_ok c la pb k s :
   Good s -> s_finds s = [] ->
   match s_step s with
   | AnyAnnotationStart | InlineAnnotationStart => True
   | _ => False
   end ->
-  okres (dispatch c la k (s_step s) s).
+  okres (dispatch c la pb k (s_step s) s).
 Proof.
   intros HG Hf Hst. dsc s. cbn in Hst, Hf. subst finds.
   destruct step; try (exfalso; exact Hst); clear Hst;
@@ -831,7 +837,7 @@ Proof.
      unf; exec; fin2).
 Qed.
 
-Lemma ann_ok c la k s :
+Lemma ann_ok c la pb k s :
   Good s -> s_finds s = [] ->
   match s_step s with
   | InlineAnnotation
@@ -841,7 +847,7 @@ Lemma ann_ok c la k s :
   | SMultiLineAnnotationEnd | MultiLineAnnotationText => True
   | _ => False
   end ->
-  okres (dispatch c la k (s_step s) s).
+  okres (dispatch c la pb k (s_step s) s).
 Proof.
   intros HG Hf Hst. dsc s. cbn in Hst, Hf. subst finds.
   destruct step; try (exfalso; exact Hst); clear Hst;
@@ -859,9 +865,9 @@ Proof.
 Qed.
 
 (* ---- \uXXXX, comments, the closure after an inline annotation ---- *)
-Lemma escu123_ok c la k s :
+Lemma escu123_ok c la pb k s :
   Good s -> s_finds s = [] -> s_step s = InStringEscU123 ->
-  okres (dispatch c la k (s_step s) s).
+  okres (dispatch c la pb k (s_step s) s).
 Proof.
   intros HG Hf Hst. dsc s. cbn in Hst, Hf. subst finds step.
   good_start HG. destruct rts as [|g rts]; [discriminate Hrt|]. norm_hyps.
@@ -897,13 +903,13 @@ Ltac leaf0 :=
   eexists; cbn; split; [match goal with Hv : tpfs _ _ = Some _ |- _ => vst_solve Hv end|];
   split; [wf_solve|]; split; [ctx_solve|]; split; bool_solve.
 
-Lemma comment_ok c la k s :
+Lemma comment_ok c la pb k s :
   Good s -> s_finds s = [] ->
   match s_step s with
   | AnyCommentStart | InlineComment | MultiLineComment | MultiLineCommentStart => True
   | _ => False
   end ->
-  okresB la (s_step s) (dispatch c la k (s_step s) s).
+  okresB la (s_step s) (dispatch c la pb k (s_step s) s).
 Proof.
   intros HG Hf Hst. dsc s. cbn in Hst, Hf. subst finds.
   destruct step; try (exfalso; exact Hst); clear Hst;
@@ -922,9 +928,9 @@ Proof.
             | right; right; repeat split; try reflexivity; cbn; lia ])).
 Qed.
 
-Lemma noannot_ok c la k s g :
+Lemma noannot_ok c la pb k s g :
   Kspec c k -> Good s -> s_finds s = [] -> s_step s = NoAnnot g ->
-  okres (dispatch c la k (s_step s) s).
+  okres (dispatch c la pb k (s_step s) s).
 Proof.
   intros HK HG Hf Hst. rewrite Hst. lazy beta iota delta [dispatch]. unfold is_annotation_start, err_char.
   destruct (ch c 47) eqn:E; [exact I|].
@@ -934,18 +940,18 @@ Proof.
   apply HK; [exact Hh|right; split; assumption|exact HG|rewrite Hf; reflexivity].
 Qed.
 
-Lemma after_new_line_ok c la k s :
+Lemma after_new_line_ok c la pb k s :
   Good s -> s_finds s = [] -> s_step s = FoundObjectKeyBeginAfterNewLine ->
-  okres (dispatch c la k (s_step s) s).
+  okres (dispatch c la pb k (s_step s) s).
 Proof.
   intros HG Hf Hst. dsc s. cbn in Hst, Hf. subst finds step.
   good_start HG. assert (Hcl : closing_only [] = true) by reflexivity.
   lazy beta iota delta [dispatch]. unfst. unf. exec; fin2.
 Qed.
 
-Lemma end_top_after_new_line_ok c la k s :
+Lemma end_top_after_new_line_ok c la pb k s :
   Good s -> s_finds s = [] -> s_step s = EndTopAfterNewLine ->
-  okres (dispatch c la k (s_step s) s).
+  okres (dispatch c la pb k (s_step s) s).
 Proof.
   intros HG Hf Hst. dsc s. cbn in Hst, Hf. subst finds step.
   good_start HG. assert (Hcl : closing_only [] = true) by reflexivity.
@@ -953,8 +959,8 @@ Proof.
 Qed.
 
 (* ---- every state function ---- *)
-Lemma dispatch_ok c la k s :
-  Kspec c k -> Good s -> s_finds s = [] -> okresB la (s_step s) (dispatch c la k (s_step s) s).
+Lemma dispatch_ok c la pb k s :
+  Kspec c k -> Good s -> s_finds s = [] -> okresB la (s_step s) (dispatch c la pb k (s_step s) s).
 Proof.
   intros HK HG Hf.
   assert (Hcl : closing_only (s_finds s) = true) by (rewrite Hf; reflexivity).
@@ -980,10 +986,10 @@ Proof.
         [assumption|assumption|left; assumption] ].
 Qed.
 
-Lemma call_S n c la f s : call (S n) c la f s = dispatch c la (call n c la) f s.
+Lemma call_S n c la pb f s : call (S n) c la pb f s = dispatch c la pb (call n c la pb) f s.
 Proof. reflexivity. Qed.
 
-Lemma call_host n c la : Kspec c (call (S n) c la).
+Lemma call_host n c la pb : Kspec c (call (S n) c la pb).
 Proof.
   intros f s Hh Hst HG Hcl. rewrite call_S.
   destruct f; try discriminate Hh; lazy beta iota delta [dispatch];
@@ -994,8 +1000,8 @@ Proof.
           | apply after_array_item_ok | apply end_top_ok ]; assumption.
 Qed.
 
-Lemma call_ok c la s :
-  Good s -> s_finds s = [] -> okresB la (s_step s) (call call_fuel c la (s_step s) s).
+Lemma call_ok c la pb s :
+  Good s -> s_finds s = [] -> okresB la (s_step s) (call call_fuel c la pb (s_step s) s).
 Proof.
   intros HG Hf. change call_fuel with (S (S 14)). rewrite call_S.
   apply dispatch_ok; [apply call_host|assumption|assumption].
@@ -1012,7 +1018,7 @@ Ltac execP1 :=
     lazymatch d with
     | is_new_line ?s ?c =>
       let E := fresh "Enl" in let E' := fresh "Enl" in
-      destruct (is_new_line_cases s c) as [[E E']|[[E E']|[? E]]]; rewrite E
+      destruct (is_new_line_cases s c) as [[E E']|[[E E']|[? E]]]; rewrite E; [rewrite ?E'|rewrite ?E'|]
     | _ => tryif is_var d then destruct d else destruct d eqn:?
     end
   end; cbn.
@@ -1020,7 +1026,7 @@ Ltac execP1 :=
 (* MixedValueEnd reads the byte before the current one: it is never queued for the first byte *)
 Definition nomve (r : res sc) : Prop :=
   match r with ROk s1 => ~ In MixedValueEnd (s_finds s1) | _ => True end.
-Lemma root_no_mve c la n s : s_finds s = [] -> nomve (call (S n) c la FoundRootValue s).
+Lemma root_no_mve c la pb n s : s_finds s = [] -> nomve (call (S n) c la pb FoundRootValue s).
 Proof.
   intros Hf. dsc s. cbn in Hf. subst finds. rewrite call_S. lazy beta iota delta [dispatch].
   unfst. unf. repeat execP1; unf2; cbn; intuition discriminate.
@@ -1056,9 +1062,9 @@ Lemma read_byte_ok la c : forall fuel s idx pb acc,
 Proof.
   induction fuel as [|fuel IH]; intros s idx pb acc HG Hf Hpb H1 H2; [lia|].
   cbn [read_byte].
-  pose proof (call_ok c la s HG Hf) as H.
-  pose proof (root_no_mve c la 15 s Hf) as Hm. change (S 15) with call_fuel in Hm.
-  destruct (call call_fuel c la (s_step s) s) as [s1|code|] eqn:Ec; cbn [okresB] in H;
+  pose proof (call_ok c la pb s HG Hf) as H.
+  pose proof (root_no_mve c la pb 15 s Hf) as Hm. change (S 15) with call_fuel in Hm.
+  destruct (call call_fuel c la pb (s_step s) s) as [s1|code|] eqn:Ec; cbn [okresB] in H;
     [|exact I|exact H].
   destruct H as [HG0 Hd].
   destruct Hd as [[Hb Hs]|[[Hb [Hs [Hfd [Hcf Hcm]]]]|[Hb [Hs [Hla Hcm]]]]]; rewrite Hb.
@@ -1225,7 +1231,7 @@ Lemma read_byte_err c la : forall fuel s idx pb acc code p,
   snd (read_byte fuel s idx pb c la acc) = inr (Err code p) -> p = idx.
 Proof.
   induction fuel as [|fuel IH]; intros s idx pb acc code p; cbn [read_byte]; [discriminate|].
-  destruct (call call_fuel c la (s_step s) s) as [s1|code'|]; cbn [snd];
+  destruct (call call_fuel c la pb (s_step s) s) as [s1|code'|]; cbn [snd];
     [|intros H; inversion H; reflexivity|discriminate].
   destruct (process_finds _ _ _ _ _ _) as [[stk' acc'] ok].
   destruct ok; [|discriminate].
@@ -1358,7 +1364,7 @@ Proof.
     + rewrite <- Es. apply after_stk. exact Hk.
 Qed.
 
-Lemma dispatch_stk c la k f s : Kstk k -> stk_res (s_stk s) (dispatch c la k f s).
+Lemma dispatch_stk c la pb k f s : Kstk k -> stk_res (s_stk s) (dispatch c la pb k f s).
 Proof.
   intros Hk.
   destruct f; lazy beta iota delta [dispatch];
@@ -1369,7 +1375,7 @@ Proof.
      first [ stk_leaf Hk | exact (end_value_stk _ _ _ _ Hk) ]).
 Qed.
 
-Lemma call_stk c la : forall n, Kstk (call n c la).
+Lemma call_stk c la pb : forall n, Kstk (call n c la pb).
 Proof.
   induction n as [|n IH]; intros f s; [exact I|]. rewrite call_S. apply dispatch_stk. exact IH.
 Qed.
@@ -1414,8 +1420,8 @@ Lemma read_byte_bound n c la : forall fuel s idx pb acc, (idx < n)%N -> stk_lt n
   match snd (read_byte fuel s idx pb c la acc) with inl s' => stk_lt n (s_stk s') | inr _ => True end.
 Proof.
   induction fuel as [|fuel IH]; intros s idx pb acc Hi Hs Ha; cbn [read_byte]; [split; [exact Ha|exact I]|].
-  pose proof (call_stk c la call_fuel (s_step s) s) as Hk.
-  destruct (call call_fuel c la (s_step s) s) as [s1|code|]; cbn [fst snd]; try (split; [exact Ha|exact I]).
+  pose proof (call_stk c la pb call_fuel (s_step s) s) as Hk.
+  destruct (call call_fuel c la pb (s_step s) s) as [s1|code|]; cbn [fst snd]; try (split; [exact Ha|exact I]).
   cbn in Hk. pose proof (stk_lt_suffix n _ _ Hk Hs) as Hs1.
   destruct (process_finds (if s_back s1 then (idx - 1)%N else idx) (if s_back s1 then None else pb)
               (s_htc s1) (s_stk s1) (frev (s_finds s1)) acc) as [[stk' acc'] ok] eqn:Ep.
@@ -1822,9 +1828,9 @@ Ltac ev_leaf Hp :=
     eapply (end_value_sim c la k _ _ _ j); [rel_solve|reflexivity|exact Hp]
   end.
 
-Lemma dispatch_sim c la k s q u jstk :
+Lemma dispatch_sim c la pb k s q u jstk :
   Rel s q u jstk -> s_finds s = [] -> plainc c = true ->
-  simR (Scanner.step false (Scanner.mkctl q u) (map fst jstk) c) jstk (dispatch c la k (s_step s) s).
+  simR (Scanner.step false (Scanner.mkctl q u) (map fst jstk) c) jstk (dispatch c la pb k (s_step s) s).
 Proof.
   intros HR Hf Hp. destruct (plainc_facts c Hp) as [H47 [H35 H64]].
   dsc s. destruct HR as [Hq [Hu [Hs [Ha [Hl [Hh [Hb [Hk Hr]]]]]]]]. cbn in *. subst.
@@ -1916,9 +1922,9 @@ Proof.
     rewrite N.add_0_r. split; [reflexivity|split; assumption].
   - destruct (plain_cons c r Hp) as [Hpc Hpr].
     cbn [run read_byte] in H.
-    pose proof (dispatch_sim c r (call 15 c r) s q u jstk HR Hf Hpc) as Hd.
+    pose proof (dispatch_sim c r pb (call 15 c r pb) s q u jstk HR Hf Hpc) as Hd.
     change call_fuel with 16 in H. rewrite call_S in H.
-    destruct (dispatch c r (call 15 c r) (s_step s) s) as [s1|code|]; [|discriminate H|discriminate H].
+    destruct (dispatch c r pb (call 15 c r pb) (s_step s) s) as [s1|code|]; [|discriminate H|discriminate H].
     cbn [simR] in Hd. destruct Hd as [q' [u' [fs [Hstep [Hfs HR1]]]]].
     assert (Hb1 : s_back s1 = false) by apply HR1.
     assert (Hk1 : s_skip s1 = false) by apply HR1.
